@@ -27,10 +27,20 @@ RULE = ("cases = scenario templates over a catalogue of 44 class specifications 
         "pairs (A,B) through ONE shared decorator object covering every (decorator, A) with four B's (quick) / every "
         "ordered pair for every decorator (thorough); (2) ordered triples; (3) two decorator objects sharing one "
         "`these` dict; (4) make_class histories over one shared attrs dict/list, class_body and bases tuple; "
+        "(0) LAYOUT TWINS: classes with the same name, qualname, field names/order/options (optionally another module, "
+        "optionally one flag of one field flipped) whose eq/order keys, converters, validators, factories, defaults, repr "
+        "callables and hooks all differ and are tagged with their class, under 24 argument sets with and without a "
+        "generated __hash__, with one shared or two separate decorator objects, histories AB / ABA / ABB / AAB; "
         "(5) shared counting attrs (also re-declared base fields) with @ca.validator/@ca.default between definitions; (6) fields over shared "
         "argument containers with appends between definitions; (7) random mixtures with histories up to 6 steps. "
         "non-trivial = the history contains at least one definition that succeeded; distinct = distinct JSON case")
 ASSUMPTIONS = [
+    "every user callable handed to attrs is a fresh object tagged with its owner (the class whose body created it, a base, "
+    "or the shared arguments); a class that holds (fields(), globals/defaults/closures of its generated methods) or runs "
+    "(hash/repr/eq/ne/lt../getstate/assignment/construction probes, on values two twins' keys classify differently) a "
+    "callable of an unrelated class -- of this or the other universe, of this or an earlier case -- violates 'the outcome "
+    "depends only on body, bases and arguments'; this oracle does not need a clean baseline, so it also sees "
+    "library-global caches that contaminate both universes of the process alike",
     "the fingerprint (fields() structure, own-dict keys, generated-method kinds, sa_attrs of the generated __setattr__, "
     "signature, probes: hash/repr/eq/lt, assignment to every field with converter/validator/hook log, construction with "
     "pre/post-init log) is what 'behaviour of a class' means here; state that influences none of these is not seen",
@@ -44,7 +54,7 @@ ASSUMPTIONS = [
     "base classes of the catalogue are at most one level deep and are built with their own fresh decorators",
 ]
 EXHAUSTIVE = {"quick": False, "thorough": False}
-BUDGET_S = {"quick": 38, "thorough": 400}
+BUDGET_S = {"quick": 30, "thorough": 400}
 TABLES = ["attrsKw", "defineKw", "frozenPartialKw", "attrsWrapRebinds", "defineWrapRebinds", "makeClassDictAliased"]
 PARALLEL = True
 
@@ -68,7 +78,7 @@ LEVEL_TEXT = (
     "The decision logic of the model (which methods are generated, which errors are raised, which fields are collected) "
     "is tied to /repo by the differential correspondence only; the deep behaviour fingerprint, the identity-level container "
     "snapshots around every definition, the re-fingerprinting of earlier classes and bases, and the closure-cell identity "
-    "check are observed at runtime, not proved. Bounds of the correspondence: catalogue of 44 class specs plus random "
+    "check and the ownership check of every callable a class holds or runs (foreignFree) are observed at runtime, not proved. Bounds of the correspondence: catalogue of 44 class specs plus random "
     "bodies, bases one level deep, histories <= 6 steps, <= 3 decorator objects; process-global state is only seen when it "
     "is keyed by something of the class or trips within one case (the erased universe runs first, under other class names).")
 
@@ -78,9 +88,12 @@ NO_OWN = {"ownHash": "absent", "ownEq": False, "ownLt": False, "ownInit": False,
 
 
 # ------------------------------------------------------------------ building blocks
-def F(name, annotated=True, src="inline", default=False, conv=False, nValid=0, hook="n", kwOnly=False, metaN=0, ca=0):
-    return {"name": name, "annotated": annotated, "src": src, "ca": ca, "hasDefault": default, "conv": conv,
-            "nValid": nValid, "hook": hook, "kwOnly": kwOnly, "metaN": metaN}
+def F(name, annotated=True, src="inline", default=False, conv=False, nValid=0, hook="n", kwOnly=False, metaN=0, ca=0, x=None):
+    f = {"name": name, "annotated": annotated, "src": src, "ca": ca, "hasDefault": default, "conv": conv,
+         "nValid": nValid, "hook": hook, "kwOnly": kwOnly, "metaN": metaN}
+    if x:
+        f["x"] = dict(x)      # harness-only: eqKey / orderKey / reprFn / factory ("kw" | "obj")
+    return f
 
 
 def P(name, default=False):
@@ -471,7 +484,84 @@ def t_mix(rng):
                     metaSize=rng.choice([0, 1]), tpl="mix")
 
 
-TEMPLATES = [t_triple, t_these, t_mk, t_ca, t_lists, t_mix]
+TWIN_DECOS = [
+    A("attrS"), A("attrS", autoDetect=True), A("attrS", slots=True), A("attrS", order="f"), A("attrS", eq="t", order="t"),
+    A("attrS", hash="t"), A("attrS", frozen=True), A("attrS", cacheHash=True, hash="t"), A("attrS", kwOnly=True),
+    A("attrS", repr="f"), A("attrS", init="f"), A("attrS", onSetattr="custom"), A("attrS", hash="f"),
+    A("define"), A("define", order="t"), A("define", slots=False), A("define", hash="t"), A("define", frozen=True),
+    A("define", onSetattr="validate"), A("define", eq="f"), A("define", order="t", slots=False, x={"getstate_setstate": True}),
+    A("frozen"), A("frozen", order="t"), A("frozen", cacheHash=True),
+]
+
+
+def _twin_fields(rng):
+    """a field layout in which every field carries user callables"""
+    names = ["x", "y", "z", "w"][:rng.choice([1, 2, 2, 3, 4])]
+    fields = []
+    for i, n in enumerate(names):
+        x = {}
+        if rng.random() < 0.65:
+            x["eqKey"] = True
+        if rng.random() < 0.35:
+            x["orderKey"] = True
+        if rng.random() < 0.35:
+            x["reprFn"] = True
+        default = i > 0 and rng.random() < 0.5 or (i > 0 and fields[-1]["hasDefault"])
+        if default and rng.random() < 0.7:
+            x["factory"] = rng.choice(["kw", "obj"])
+        fields.append(F(n, True, "inline", default=bool(default), conv=rng.random() < 0.5, nValid=rng.choice([0, 1, 1, 2]),
+                        hook=rng.choice(["n", "n", "n", "custom", "custom", "validate"]), metaN=rng.choice([0, 0, 1]), x=x))
+    if not any(f.get("x", {}).get("eqKey") for f in fields):
+        fields[0]["x"] = dict(fields[0].get("x", {}), eqKey=True)
+    return fields
+
+
+def t_twin(rng):
+    """layout twins: classes with the same name, qualname, field names, order and options whose user callables
+    (eq/order keys, converters, validators, factories, repr callables, hooks, defaults) all differ and are tagged
+    with their class; histories (A, A'), (A, A', A), (A', A, A'); near twins differ in one flag of one field"""
+    fields = _twin_fields(rng)
+    base = rng.choice(["object", "object", "object", "plain", "mutableAttrS", "frozenAttrS", "hookedDefine", "exc"])
+    own = dict(NO_OWN)
+    if rng.random() < 0.15:
+        own[rng.choice(["ownEq", "ownLt", "ownRepr", "ownInit"])] = True
+
+    def twin(variant, near=False):
+        c = {"base": base, "fields": copy.deepcopy(fields), "own": dict(own), "hasPre": False, "hasPost": False,
+             "x": {"name": "C", "variant": variant, "fieldApi": rng.choice(["ib", "field"])}}
+        if rng.random() < 0.3:
+            c["x"]["module"] = "c16mod" + str(variant)          # same qualname, another module
+        if near:
+            f = rng.choice(c["fields"])
+            what = rng.choice(["eqKey", "orderKey", "reprFn", "conv", "nValid", "hook"])
+            if what in ("eqKey", "orderKey", "reprFn"):
+                fx = dict(f.get("x", {}))
+                fx[what] = not fx.get(what)
+                f["x"] = fx
+            elif what == "conv":
+                f["conv"] = not f["conv"]
+            elif what == "nValid":
+                f["nValid"] = 0 if f["nValid"] else 1
+            else:
+                f["hook"] = "n" if f["hook"] != "n" else "custom"
+        return c
+
+    d = copy.deepcopy(rng.choice(TWIN_DECOS))
+    if rng.random() < 0.5:
+        decos, idx = [d], [0, 0, 0]                       # one decorator object for all of them
+    else:
+        decos, idx = [d, copy.deepcopy(d)], [0, 1, 0]     # no shared decorator, no shared container at all
+        if rng.random() < 0.3:
+            decos[1] = copy.deepcopy(rng.choice(TWIN_DECOS))
+    shape = rng.choice(["AB", "AB", "ABA", "ABB", "AAB"])
+    variants = {"A": 0, "B": rng.choice([1, 2])}
+    near = rng.random() < 0.25
+    seq = [twin(variants[ch], near and ch == "B") for ch in shape]
+    steps = [defDeco(idx[i % 3], c) for i, c in enumerate(seq[:-1])]
+    return scenario(decos, steps, defDeco(idx[(len(seq) - 1) % 3], seq[-1]), cas=[CA()], tpl="twin")
+
+
+TEMPLATES = [t_triple, t_twin, t_these, t_mk, t_twin, t_ca, t_lists, t_mix]
 
 
 def _fix_catalogue_for_case(case):
@@ -480,6 +570,9 @@ def _fix_catalogue_for_case(case):
 
 
 def gen_cases(tier, rng):
+    # 0. layout twins first (library-global state keyed by field layout needs no shared decorator or container)
+    for _ in range(400 if tier == "quick" else 20000):
+        yield t_twin(rng)
     # 1. every (decorator, A) of the catalogue through one shared decorator object, B from the sensitive set
     if tier == "quick":
         order = [(d, a) for d in DECO_NAMES for a in CAT]
@@ -493,7 +586,7 @@ def gen_cases(tier, rng):
                 for b in CAT:
                     yield t_pair(rng, d, a, b)
     # 2. one of each other template, round robin, until the budget is used
-    n = 3400 if tier == "quick" else 400000
+    n = 3000 if tier == "quick" else 400000
     for i in range(n):
         yield TEMPLATES[i % len(TEMPLATES)](rng)
 
@@ -522,24 +615,29 @@ def _run(world, steps, target, erase):
             snaps_ok = snaps_ok and s0 == world.snapshot()
             hist.append(r)
             if cls is not None:
-                made.append((cls, W.deep_of(cls)))
+                made.append((cls, W.deep_of(cls, world.allowed_of(cls))))
         else:
             hist.append(world.user_op(st))
     s0 = world.snapshot()
     r, cls = world.define(target)
     snaps_ok = snaps_ok and s0 == world.snapshot()
-    deep = W.deep_of(cls) if cls is not None else r
+    deep = W.deep_of(cls, world.allowed_of(cls)) if cls is not None else r
     return r, deep, hist, made, snaps_ok
 
 
 def _observe(case):
     # the universe without the history's definitions runs first: state leaked through process globals by
     # this case's history cannot reach it
-    wb = W.World(case, "b")
+    wb = W.World(case, "b", fp_bases=False)
     alone, deep_b, _, _, _ = _run(wb, case["steps"], case["target"], erase=True)
     wa = W.World(case, "a")
     after, deep_a, hist, made, snaps_ok = _run(wa, case["steps"], case["target"], erase=False)
-    earlier = all(W.deep_of(c) == d for c, d in made) and all(W.deep_of(wa.bases[k]) == fp for k, fp in wa.base_fp.items())
+    again = [(W.deep_of(c, wa.allowed_of(c)), d) for c, d in made]
+    bases_again = [(W.deep_of(wa.bases[k], wa.allowed_of(wa.bases[k])), fp) for k, fp in wa.base_fp.items()]
+    earlier = all(x == d for x, d in again + bases_again)
+    # no class of either universe ever holds or runs a callable of another class (of any universe, of any case)
+    fps = [deep_a, deep_b] + [x for x, _ in again + bases_again] + [d for _, d in again + bases_again] + list(wb.base_fp.values())
+    foreign_free = all(not (isinstance(f, dict) and f.get("foreign")) for f in fps)
     return {
         "after": after, "alone": alone, "hist": hist,
         "cellsAfter": wa.final_cells(),
@@ -547,7 +645,7 @@ def _observe(case):
         "casAfter": [W.ca_state(c) for c in wa.cas],
         "sizesAfter": [len(wa.L), len(wa.Cs), len(wa.H), len(wa.M)],
         "deepSame": W.normalised(wa, deep_a) == W.normalised(wb, deep_b), "earlierSame": bool(earlier), "containersSame": bool(snaps_ok),
-        "cellsSame": wa.cells_same(),
+        "cellsSame": wa.cells_same(), "foreignFree": bool(foreign_free),
     }
 
 
